@@ -10,8 +10,8 @@ import json, os, re, subprocess, sys, time, threading, shutil, hashlib
 VERIF = os.path.dirname(os.path.dirname(os.path.abspath(__file__)))
 SPEC = os.path.join(VERIF, "spec")
 HARNESS = os.path.join(VERIF, "harness")
-OUT = os.path.join(VERIF, "out")
-EVID = os.path.join(VERIF, "evidence")
+OUT = os.environ.get("VERIF_OUT") or os.path.join(VERIF, "out")          # VERIF_OUT / VERIF_EVID: private scratch for a second concurrent run
+EVID = os.environ.get("VERIF_EVID") or os.path.join(VERIF, "evidence")
 TLA_CP = "/opt/veriftools/tla/tla2tools.jar:/opt/veriftools/tla/CommunityModules-deps.jar"
 
 
@@ -342,3 +342,26 @@ def validate_trace(ctx, module, trace_path, name, constants=None, timeout=600, e
     accepted = not res["errors"]
     info = {"events": n, "accepted": accepted, "msgs": res["msgs"], "errors": res["errors"][:12], "log": res["log"]}
     return info
+
+
+def run_tlapm(ctx, module, deps, timeout=600):
+    """check the TLAPS proofs of spec/<module>.tla in a scratch copy (no fingerprint cache); returns the number of obligations proved"""
+    import shutil, re
+    d = os.path.join(ctx.out, "tlaps_" + module)
+    shutil.rmtree(d, ignore_errors=True)
+    os.makedirs(d)
+    for m in [module] + list(deps):
+        shutil.copy(os.path.join(SPEC, m + ".tla"), d)
+    t0 = time.time()
+    try:
+        p = subprocess.run(["tlapm", "--threads", "4", "--cleanfp", module + ".tla"], cwd=d, stdout=subprocess.PIPE, stderr=subprocess.STDOUT,
+                           text=True, timeout=timeout)
+    except subprocess.TimeoutExpired:
+        raise ToolError("tlapm timed out on %s" % module)
+    open(os.path.join(ctx.out, module + ".tlapm.log"), "w").write(p.stdout)
+    m = re.search(r"All (\d+) obligations? proved", p.stdout)
+    shutil.rmtree(d, ignore_errors=True)
+    if p.returncode != 0 or not m:
+        raise ToolError("tlapm did not prove %s: %s" % (module, " | ".join(p.stdout.strip().splitlines()[-6:])))
+    log("TLAPS %s: %s obligations proved, %.1fs" % (module, m.group(1), time.time() - t0))
+    return int(m.group(1))
